@@ -195,6 +195,8 @@ def strip_hash(t):
 def norm_alltables(a):
     out = []
     for x in a:
+        if isinstance(x, list) and x and x[0] == 'subaccepting':
+            continue            # not in Rust's TABLES dump; judged against the MIN dump (see judge)
         if isinstance(x, list) and x and x[0] == 'main':
             out.append(['main', strip_hash(x[1])])
         elif isinstance(x, list) and x and x[0] == 'subwords':
